@@ -120,10 +120,16 @@ class Geometry:
                 # integer factors, but not if one axis is enlarged while the other one is
                 # shrunk at the same time. Thus, resize axis by axis.
                 # For enlarging by an integer factor, replicate the values; cv2 picks the
-                # wrong source voxel for some factors (e.g. 49) due to rounding.
+                # wrong source voxel for some factors (e.g. 49) due to rounding. For
+                # shrinking by an integer factor, average blocks; cv2 uses a single
+                # precision weight (systematic relative error of 3e-8 for e.g. factor 3).
                 def resize_axis(array: np.ndarray, size: int, axis: int) -> np.ndarray:
                     if size % array.shape[axis] == 0:
                         return np.repeat(array, size // array.shape[axis], axis=axis)
+                    if array.shape[axis] % size == 0:
+                        blocks = list(array.shape)
+                        blocks[axis : axis + 1] = [size, array.shape[axis] // size]
+                        return np.mean(array.reshape(blocks), axis=axis + 1)
                     dsize = (array.shape[1], size) if axis == 0 else (size, array.shape[0])
                     return cv2.resize(
                         array, dsize, interpolation=cv2.INTER_AREA  # conservative.
